@@ -218,6 +218,21 @@ def check_theorems(run, vfiles):
             run.add_violation("theorem", "; ".join(problems), "theorem-file: %s\n%s" % (vfile, "\n".join(problems)),
                               False, "theorem:" + vfile)
     run.cov["checker_cmd"] = " ; ".join(cmds) + "   (after `make` of the whole development; Print Assumptions parsed)"
+    if run.tier == "thorough":
+        # independent re-check of the compiled theorem files and everything they depend on
+        for vspec in vfiles:
+            if "|" in vspec:
+                cdir, root, vfile = vspec.split("|")
+                cdir = os.path.join(ROOT, cdir)
+            else:
+                cdir, root, vfile = COQ, "CL", vspec
+            mod = root + "." + vfile[:-2].replace("/", ".")
+            rc, out = sh("cd %s && timeout 1500 coqchk -silent -o -Q . %s %s 2>&1 | tail -15" % (cdir, root, mod), timeout=1600)
+            ok = re.search(r"\* Axioms:\s*<none>", out) is not None and re.search(r"type-in-type:\s*<none>", out) is not None \
+                and re.search(r"unsafe \(co\)fixpoints:\s*<none>", out) is not None and re.search(r"positivity is assumed:\s*<none>", out) is not None
+            run.cov.setdefault("coqchk", []).append(dict(module=mod, ok=bool(ok), tail=out[-300:]))
+            if not ok:
+                run.add_violation("theorem", "coqchk does not confirm %s axiom-free: %s" % (mod, out[-300:]), out[-2000:], False, "coqchk:" + mod)
 
 
 # ---------------------------------------------------------------------------------------
@@ -753,11 +768,53 @@ def load_known():
 
 # ---------------------------------------------------------------------------------------
 def run_replay(run, spec, path):
-    text = "".join(l for l in open(path) if not l.startswith("#"))
-    part = [p for p in spec["parts"] if p["kind"] == "core"][0]
-    if not build_harness(run, "vh-core"):
+    """re-runs the case(s) of a replay file through the part it belongs to"""
+    lines = [l for l in open(path) if not l.startswith("#")]
+    text = "".join(lines)
+    kind = None
+    for l in lines:
+        if l.startswith("CCASE"):
+            kind = "sched"
+            break
+        if l.startswith("E "):
+            kind = "macro"
+            break
+        if l.startswith("O "):
+            kind = "core"
+            break
+        if l.startswith("part="):
+            kind = "ext"
+            break
+    print("replay kind:", kind)
+    if kind == "core":
+        part = next((p for p in spec["parts"] if p["kind"] == "core"), dict(mask="out,keys,queue,vals,size,freq,born,stats", preds="c01,c04,c05,c06,c07,c08,c13,c15,wf"))
+        if not build_harness(run, "vh-core"):
+            return
+        r, err = run_core_cases(text, part["mask"], part["preds"], run.pid + "_replay")
+    elif kind == "macro":
+        part = next((p for p in spec["parts"] if p["kind"] == "macro"), dict(preds="pure"))
+        ensure_corpus()
+        if not build_harness(run, "vh-macro"):
+            return
+        r, err = run_macro_cases(text, part["preds"], run.pid + "_replay")
+    elif kind == "sched":
+        ensure_corpus()
+        if not build_harness(run, "vh-macro"):
+            return
+        sf, of = BUILD + "/sched_replay.txt", BUILD + "/sched_replay_obs.txt"
+        open(sf, "w").write(text)
+        sh("%s/target/debug/vh-macro run %s %s" % (BUILD, sf, of), timeout=600)
+        table = corpus_table()
+        out = [l.rstrip("\n") for l in open(of)]
+        print("\n".join(out))
+        dl, problems = check_sched_case(out, table)
+        if problems:
+            run.add_violation("prop", "replay: " + problems[0], text, True, "replay")
         return
-    r, err = run_core_cases(text, part["mask"], part["preds"], run.pid + "_replay")
+    else:
+        print("replay files of self-contained parts name the command to re-run; see the file")
+        print(text)
+        return
     print("replay:", r if r else err)
     if r:
         verdicts, fails, _ = r
